@@ -47,7 +47,13 @@ func (t *Timer) Set(dur time.Duration, cb func()) error {
 	if err == nil {
 		// TODO error checking here
 		t.slot.Set(ReadEvent, func(error) {
-			_, _ = syscall.Read(t.fd, t.b[:])
+			_, err := syscall.Read(t.fd, t.b[:])
+			if err == syscall.EAGAIN || err == syscall.EWOULDBLOCK {
+				// The timer has not expired: this readiness was reported for a previous schedule which a handler
+				// dispatched earlier in the same poll cycle cancelled before arming the current one. Keep waiting.
+				_ = t.poller.SetRead(&t.slot)
+				return
+			}
 			cb()
 		})
 		err = t.poller.SetRead(&t.slot)
